@@ -589,12 +589,7 @@ func (ex *Exec) applyContractSig(fr *frame, calleeKey string, pkg *types.Package
 			}
 		case "prefix":
 			if w != nil {
-				for id := range w.Tables {
-					if strings.HasPrefix(id, m.ID) {
-						ex.tableHavoc(w, id)
-					}
-				}
-				w.Opaque[m.ID]++
+				ex.havocModule(w, strings.TrimSuffix(m.ID, ":"))
 			}
 		}
 	}
